@@ -245,7 +245,19 @@ fn read_requests(path: &str) -> Vec<Request> {
         .collect()
 }
 
+/// The requests of a batch are converted on a thread with the stack a spawned Rust thread gets by default (2 MiB: what a
+/// caller that converts on a worker thread, or the server's runtime threads, have), not on the 8 MiB main thread: a
+/// recursion whose depth grows with the input shows up at the sizes the checks use.
 fn batch(inp: &str, out: &str) {
+    let (inp, out) = (inp.to_string(), out.to_string());
+    let h = std::thread::Builder::new()
+        .stack_size(2 << 20)
+        .spawn(move || batch_on_this_thread(&inp, &out))
+        .expect("bobdrive: cannot spawn the worker thread");
+    h.join().expect("bobdrive: worker thread died");
+}
+
+fn batch_on_this_thread(inp: &str, out: &str) {
     install_panic_hook();
     let f = File::open(inp).expect("bobdrive: cannot open request file");
     let mut w = BufWriter::new(File::create(out).expect("bobdrive: cannot create output"));
